@@ -270,7 +270,8 @@ def run_shard(spec: dict) -> ShardResult:
                 v = interp(p, rz.view)
                 res.count("redzone_interpolations")
                 w = model_interpolate(info, f.data, p)[0]
-                if np.isnan(np.asarray(v)).any() or (np.abs(np.asarray(v) - w) > 64 * EPS * (np.abs(w) + 1)).any():
+                cond = sum((abs(pi) + abs(lo)) / d for pi, (lo, _), d in zip(p, info["bounds"], dxs))
+                if np.isnan(np.asarray(v)).any() or (np.abs(np.asarray(v) - w) > 64 * EPS * (np.abs(w) + 1) * (1 + cond)).any():
                     res.violation("compiled interpolator on external data: wrong value or NaN poison read", {**case0, "point": p.tolist()})
             if not rz.unchanged():
                 res.violation("compiled interpolator modified the data array or memory next to it", case0)
@@ -381,7 +382,8 @@ def run_shard(spec: dict) -> ShardResult:
                     res.count("compiled_inserter_compared")
                     if not rz.margins_intact():
                         res.violation("compiled inserter wrote outside the data array", case)
-                    if (np.abs(rz.view - g1.data) > 256 * EPS * (np.abs(g1.data) + np.abs(amount).max() / V.min())).any():
+                    cond = sum((abs(pi) + abs(lo)) / d for pi, (lo, _), d in zip(p, info["bounds"], dxs))
+                    if (np.abs(rz.view - g1.data) > 256 * EPS * (np.abs(g1.data) + np.abs(amount).max() / V.min()) * (1 + cond)).any():
                         res.violation("compiled inserter disagrees with field.insert", case)
                 except Exception as exc:
                     res.violation(f"compiled inserter raised {type(exc).__name__}: {str(exc)[:200]}", case)
